@@ -13,8 +13,17 @@ def _shuffled(items, seed):
 def ellipsis_pairs(tier, seed):
     wants = list(token_strings(['a', 'b', '...', ' ', 'ab', '\n'], 5))
     gots = list(strings('ab ', 4)) + ['a\nb', 'ab\nab', 'aab', 'abab', 'ba ab']
+    # three or more ellipses around short pieces, end anchored: the shape where a piece could be searched for past the
+    # region the last piece is anchored to (pieces must never overlap)
+    lits = ['a', 'b', 'ab']
+    multi = ['...' + x + '...' + y + '...' + z for x in lits for y in lits for z in lits]
+    multi += [x + '...' + y + '...' + z for x in lits for y in lits for z in lits]
+    short = [g for g in strings('ab', 5) if len(g) >= 3]
+    front = _shuffled(itertools.product(short, multi), seed)[:1500]
     pairs = _shuffled(itertools.product(gots, wants), seed)
-    for g, w in pairs:
+    for k, (g, w) in enumerate(pairs):
+        if k < len(front):
+            yield {'got': front[k][0], 'want': front[k][1]}
         yield {'got': g, 'want': w}
 
 
